@@ -90,7 +90,7 @@ def run_cmdline_property(v, family, design_cfg, replay_cfg="MC_CmdLine_replay.cf
     return cov
 
 
-def run_tree_groups(v, seed, n, maxlen, budget, kinds, signature, ledger_every=1):
+def run_tree_groups(v, seed, n, maxlen, budget, kinds, signature, ledger_every=1, driver_n=4000):
     """TreeLine.tla: subcommands whose own level has choices / adjacent groups; all lines, replayed with hook validation"""
     fam = D.tree_group_family(seed, n, maxlen=maxlen, budget=budget, kinds=kinds)
     def sig(m):
@@ -99,8 +99,12 @@ def run_tree_groups(v, seed, n, maxlen, budget, kinds, signature, ledger_every=1
         s = signature(dict(m, def_full=subs[0]) if len(subs) == 1 else m)
         s["shape"] = "group_inside_command"
         return s if "rule" not in s else {k: s[k] for k in s if k != "shape"}
+    big = D.tree_group_family(seed + 5000, 24, maxlen=4, budget=10**9, kinds=[k for k in kinds if k != "acmd"] or ["alt"])
+    def gen(rnd, d):
+        yield "line", linegen.tree_group_line(rnd, d)
     cov = run_cmdline_property(v, fam, None, replay_cfg="MC_TreeLine_replay.cfg", module="MC_TreeLine", signature=sig,
-                               ledger_every=ledger_every, name=v.pid + "-tree", extra_files=[os.path.join(TLA, "TreeLine.tla")])
+                               ledger_every=ledger_every, name=v.pid + "-tree", extra_files=[os.path.join(TLA, "TreeLine.tla")],
+                               trace_module="TreeLineTrace", driver={"defs": big, "n": driver_n, "gen": gen})
     return cov
 
 
